@@ -184,7 +184,7 @@ fn step(real: &mut RollbackBuffer, model: &mut Vec<Point>, op: Op, diag: Option<
 }
 
 pub fn run(ctx: Ctx) -> ! {
-    let l: usize = if ctx.thorough { 10 } else { 7 };
+    let l: usize = if ctx.thorough { 12 } else { 8 };
     let diag = Diag {
         dup_rollbacks: AtomicU64::new(0),
         dup_first: AtomicU64::new(0),
